@@ -626,7 +626,7 @@ def gen_stmt(g, env, s, depth, nstmts, in_if=False):
             if s.certain:
                 s.ncertain += 1
             return [r[0]]
-    elif c == 'where' and not in_if:
+    elif c == 'where' and not in_if and depth <= 2:      # the companion loop needs a declared variable lj<depth>
         r = gen_where(g, env, s, depth)
         if r is not None:
             if s.certain:
